@@ -271,6 +271,28 @@ func ruleX3(w *world.World, r *report.RuleResult) {
 		if n == 0 && it.must {
 			r.Fail(it.fn+"|delete", w.Pos(fn.Pos()), it.fn+" no longer removes expired keys at all")
 		}
+		// per-database isolation of the marked keys: delete(state[db], key) must only see keys marked
+		// during the current iteration of the loop over databases
+		for _, c := range world.Calls(fn) {
+			bi, ok := c.Common().Value.(*ssa.Builtin)
+			if !ok || bi.Name() != "delete" || len(c.Common().Args) != 2 {
+				continue
+			}
+			lk, ok := c.Common().Args[0].(*ssa.Lookup)
+			if !ok {
+				continue
+			}
+			dbHdr := loopHeaderOf(lk.Index)
+			if dbHdr == nil {
+				continue
+			}
+			key := it.fn + "|delete-list-per-database"
+			if ph := carriedAcross(c.Common().Args[1], dbHdr); ph != nil {
+				r.Fail(key, w.InstrPos(c), it.fn+" deletes from one database keys that were marked while scanning another: the list of keys to delete lives across iterations of the loop over databases, so a live key is dropped from a later database when a key of the same name has expired in an earlier one")
+			} else {
+				r.OK(key, w.InstrPos(c), "the keys deleted from a database were all marked during that database's own iteration")
+			}
+		}
 	}
 }
 
@@ -306,6 +328,14 @@ func ruleX4(w *world.World, r *report.RuleResult) {
 			key := fname + "|inherit-deadline"
 			// every place where the old deadline flows into the variable must be under ALIVE
 			bad := inheritSitesWithoutAlive(fn, st.Val, isOldDeadline, must)
+			// the deadline must be this key's own: not carried over from a key processed earlier in the same call
+			if hdr := entriesLoopHeader(fn); hdr != nil {
+				if ph := carriedAcross(st.Val, hdr); ph != nil {
+					r.Fail(fname+"|deadline-is-per-key", w.InstrPos(st), "the deadline written into the new entry is held in a variable that lives across iterations of the loop over the entries: in a multi-key write (MSET) a key can receive the deadline of another key processed earlier in the same call")
+				} else {
+					r.OK(fname+"|deadline-is-per-key", w.InstrPos(st), "the deadline variable is reset for every key of a multi-key write")
+				}
+			}
 			if len(bad) == 0 {
 				r.OK(key, w.InstrPos(st), "the previous entry's deadline is carried over only on the edge where it has not passed")
 			} else {
@@ -316,6 +346,24 @@ func ruleX4(w *world.World, r *report.RuleResult) {
 	if n == 0 {
 		r.OK(fname+"|inherit-deadline", w.Pos(fn.Pos()), "setValues does not carry a previous deadline over (new entries start without expiry)")
 	}
+}
+
+// entriesLoopHeader: header block of the range loop over the entries map parameter of setValues.
+func entriesLoopHeader(fn *ssa.Function) *ssa.BasicBlock {
+	for _, b := range fn.Blocks {
+		for _, in := range b.Instrs {
+			if nx, ok := in.(*ssa.Next); ok {
+				if rg, ok := nx.Iter.(*ssa.Range); ok {
+					if p, ok := rg.X.(*ssa.Parameter); ok {
+						if _, isMap := p.Type().Underlying().(*types.Map); isMap {
+							return nx.Block()
+						}
+					}
+				}
+			}
+		}
+	}
+	return nil
 }
 
 // inheritSitesWithoutAlive: instructions where a value accepted by src enters v (phi edges / stores
